@@ -127,7 +127,9 @@ func (x *Exec) run() (err error) {
 		if x.ctr != nil {
 			if ls, ok := x.ctr.Loops[li.K]; ok {
 				if ls.Sig != "" && ls.Sig != li.Sig {
-					return unsupported{fmt.Sprintf("UNBOUND loop %d of %s: contract sig %q, source has %q", li.K, x.funcName(), ls.Sig, li.Sig)}
+					// the loop header text changed: the contract stays bound by ordinal and the
+					// invariants decide; the change is reported so that a reader can tell
+					x.ck.notes = append(x.ck.notes, fmt.Sprintf("NOTE: loop %d of %s: header is now %q (contract was written for %q)", li.K, x.funcName(), li.Sig, ls.Sig))
 				}
 				li.Spec = ls
 			}
@@ -154,6 +156,8 @@ func (x *Exec) run() (err error) {
 	}
 	st.top = x.fresh(st, "top", sInt)
 	st.assume(mkCmp(">=", st.top, tZero))
+	st.entryTop = st.top
+	st.heapTop = map[string]Term{}
 	x.params = map[string]Value{}
 	for i, p := range fn.Params {
 		v := x.freshValue(st, "p_"+p.Name(), p.Type())
@@ -584,6 +588,11 @@ func (x *Exec) havocLoop(st *State, li *LoopInfo) {
 		heapSet = map[string]bool{}
 		for _, m := range li.Spec.Modifies {
 			x.havocLvalue(st, m, x.newEnv(st))
+		}
+	}
+	for g := range st.ghost {
+		if strings.HasPrefix(g, "!sticky:") {
+			delete(st.ghost, g)
 		}
 	}
 	// iterations may allocate: everything havocked may be newer than the current top
